@@ -54,6 +54,19 @@ class Model:
             d['_blocks'][name] = self.interp.instantiate(self.block_cls, (name, c, list(ins), list(gs), list(outs)))
         return c
 
+    def build_circuit(self, spec, outputs=()):
+        """The same circuit built through the repository's own constructors, in the order of `spec` (which may list a gate
+        before its operands, as a bench text may): `_emplace_gate` per gate -- the unchecked constructor the parser uses --
+        and `set_outputs`.  The users index is then whatever the repository's bookkeeping makes of it."""
+        self.interp.steps = 0
+        c = self.interp.instantiate(self.circuit_cls)
+        emplace = RepoFunc(self.interp, self.mod, self.mod.func('Circuit._emplace_gate'), bound_self=c)
+        for label, tname, operands in spec:
+            self.interp.steps = 0
+            emplace(label, self.types[tname], tuple(operands))
+        RepoFunc(self.interp, self.mod, self.mod.func('Circuit.set_outputs'), bound_self=c)(list(outputs))
+        return c
+
     def call(self, c: Instance, method: str, *args, **kwargs):
         """Fold `Circuit.<method>` over the model; returns (result, error)."""
         self.interp.steps = 0
